@@ -14,6 +14,9 @@ def run(ctx):
         ("scripted-lz4-3x1", ["-nodes", "3", "-numconns", "1", "-clients", "2", "-workers", "3", "-round", "80", "-compression", "lz4"], True),
         ("random-snappy-3x1", ["-random", "1000" if t else "200", "-nodes", "3", "-numconns", "1", "-clients", "2", "-workers", "3", "-round", "100", "-okbias", "1",
                                "-compression", "snappy"], False),
+        # connections the proxy gives up itself (a node falls silent, the idle timeout passes) with requests outstanding: to the
+        # retry policy that is a lost connection like any other (an idempotent request moves on to the next host)
+        ("idle-close-3x1", ["-random", "800" if t else "120", "-nodes", "3", "-numconns", "1", "-clients", "3", "-workers", "4", "-round", "60", "-idleclose", "-okbias", "2", "-nodrops"], False),
         ("random-1x2", ["-random", "600" if t else "150", "-nodes", "1", "-numconns", "2", "-clients", "2", "-workers", "2", "-round", "75", "-okbias", "1"], False),
     ]
     rf.run_property(ctx, "C05", plans)
